@@ -65,7 +65,7 @@ package mimetype
 //@   ensures result.parent == nil && result.detector == nil && len(result.children) == 0
 //@   ensures [C02_clone_fields] result.extension == m.extension && result.aliases == m.aliases
 //@   ensures [C02_clone_mime] len(ps) == 0 ==> result.mime == m.mime
-//@   ensures [C02_clone_format] len(ps) > 0 ==> result.mime == formatMedia(m.mime, ps)
+//@   ensures [C02C15_clone_format] len(ps) > 0 ==> result.mime == formatMedia(m.mime, ps)
 //@   ghost return: result.orig = m
 //@   ensures [C03_orig] MIME(result.orig) == m
 //@   ensures [C03_one] forall x :: fresh(MIME(x)) ==> MIME(x) == result
